@@ -195,11 +195,11 @@ pub fn cases(prop: &str, tier: &str, ctx: &mut Ctx, rng: &mut Rng) {
                 let paths = item_paths(reg);
                 for k in 0..3 {
                     spec.ops.push(OpSpec::DerivesAll(vec![format!("D{k}"), format!("::m::E{k}"), "Clone".into()]));
-                    spec.ops.push(OpSpec::AttrsAll(vec![format!("#[attr{k}]")]));
+                    spec.ops.push(OpSpec::AttrsAll(vec![format!("#[attr{k}]"), format!("#[shared(arg{k})]"), format!("#[shared(other = {k})]")]));
                     if !paths.is_empty() {
                         let key = rng.pick(&paths).join("::");
                         spec.ops.push(OpSpec::DerivesFor(key.clone(), vec![format!("S{k}"), "Debug".into()], k % 2 == 0));
-                        spec.ops.push(OpSpec::AttrsFor(key, vec![format!("#[sattr{k}]")], k % 2 == 1));
+                        spec.ops.push(OpSpec::AttrsFor(key, vec![format!("#[sattr{k}]"), format!("#[shared(specific{k})]")], k % 2 == 1));
                     }
                 }
                 // permutation of the history that keeps the relative order of substitute ops (last insert wins)
